@@ -85,7 +85,7 @@ func checkCase(c *Case, count bool) error {
 	}
 	for _, q := range c.Reqs {
 		pats := r.Patterns(q.Method)
-		if strings.Contains(q.Path, "*") && hasBoth(pats) {
+		if rt.ExcludedE(q.Path, pats) {
 			if count {
 				stats.Excluded("open finding E: request contains '*' and the method has both a parameter and a catch-all")
 			}
